@@ -393,7 +393,12 @@ fn gen_selector_case(r: &mut Rng, mode: Mode) -> (Vec<&'static str>, Vec<String>
     let mut defs: Vec<Def> = vec![];
     let mut cur: Vec<i64> = vec![];
     let mut tags = vec!["selector"];
-    let k = r.range(1, 4) as usize;
+    // a third of the selectors use `new_with_fn` with the non-equality comparator (`selc`, at least two keys)
+    let custom = r.chance(1, 3);
+    let k = if custom { r.range(2, 4) } else { r.range(1, 4) } as usize;
+    if custom {
+        tags.push("selc");
+    }
     let nsig = r.range(1, 2);
     let vmax = k + 1; // values 0..=k: value k selects no key
     for _ in 0..nsig {
@@ -433,10 +438,15 @@ fn gen_selector_case(r: &mut Rng, mode: Mode) -> (Vec<&'static str>, Vec<String>
         tags.push("selexpr");
     }
     let first = defs.len();
-    lines.push(format!("sel {k} {}", show_expr(&src)));
-    let node = first + k;
+    lines.push(format!("{} {k} {}", if custom { "selc" } else { "sel" }, show_expr(&src)));
+    let node = first + k + custom as usize;
     for j in 0..k {
         defs.push(Def::Key(node, j as i64));
+        cur.push(0);
+    }
+    if custom {
+        // the hidden node (not readable)
+        defs.push(Def::Key(node, -1));
         cur.push(0);
     }
     defs.push(Def::Eff(src.clone()));
@@ -530,7 +540,7 @@ fn gen_selector_case(r: &mut Rng, mode: Mode) -> (Vec<&'static str>, Vec<String>
             7 => lines.push("idle".into()),
             8 | 9 => {
                 let readable: Vec<usize> =
-                    (0..defs.len()).filter(|i| matches!(defs[*i], Def::Sig(_) | Def::Memo(_) | Def::Key(..))).collect();
+                    (0..defs.len()).filter(|i| matches!(defs[*i], Def::Sig(_) | Def::Memo(_) | Def::Key(_, 0..))).collect();
                 lines.push(format!("read {}", *r.pick(&readable)));
             }
             _ => {
